@@ -4,8 +4,8 @@ from concurrent.futures import ThreadPoolExecutor
 from . import build
 
 VERIF = build.VERIF
-EVID = os.path.join(VERIF, "evidence")
-REPLAYS = os.path.join(VERIF, "replays")
+EVID = os.environ.get("VERIF_EVIDENCE") or os.path.join(VERIF, "evidence")
+REPLAYS = os.environ.get("VERIF_REPLAYS") or os.path.join(VERIF, "replays")
 KNOWN = os.path.join(VERIF, "known_findings.json")
 
 
